@@ -13,6 +13,9 @@ Per impl the body must have one of these shapes (anything else is an error of th
   identity    Ok(self)      or   eprintln!(..); return Ok(self); todo!(..)         (signatures, MethodParameter)
   struct      [let name_and_desc = remapper.map_field|map_method(this_class, &self.name, &self.descriptor)?;]
               Ok(T { field: <expr>, ... })             every field of T exactly once
+  RecordComponent   struct shape after `let field_name = FieldName::try_from(self.name.into_inner())?;
+              let name_and_desc = remapper.map_field(this_class, &field_name, &self.descriptor)?;`, the name
+              rebuilt by `RecordName::try_from(name_and_desc.name.into_inner())?`
   enum        use T::*; Ok(match self { <pattern> => <expr>, ... })                every variant exactly once
   EnclosingMethod   the if-let on self.method with map_method_ref / map_class_any (recognised literally)
   InnerClass        struct shape with the nested identity helper map_inner_class_name
@@ -448,8 +451,10 @@ def expr_action(expr, field, ctx):
         return "Remapped (%s)" % REMAPPER_METHODS[m.group(1)]
     if e in ("Vec::new()", "None"):
         return "Dropped"
-    if ctx.get("decl") and e == "name_and_desc.name" and field == "name":
+    if ctx.get("decl") in ("DField", "DMethod") and e == "name_and_desc.name" and field == "name":
         return "Remapped (MDeclName %s)" % ctx["decl"]
+    if ctx.get("decl") == "DRecord" and e == "RecordName::try_from(name_and_desc.name.into_inner())?" and field == "name":
+        return "Remapped (MDeclName DRecord)"
     if ctx.get("decl") and e == "name_and_desc.desc" and field == "descriptor":
         return "Remapped (MDeclDesc %s)" % ctx["decl"]
     if ctx["type"] == "InnerClass" and field == "inner_name" and ctx.get("inner_helper") and e == INNER_NAME_EXPR:
@@ -625,6 +630,19 @@ def parse_impl(header, body, defs, impls, rows):
             raise Fail("impl for InnerClass: helper map_inner_class_name differs from the recognised identity")
         ctx["inner_helper"] = True
         text = text[e + 1:].strip()
+    RECORD_PRELUDE = squash("""
+        let field_name = FieldName::try_from(self.name.into_inner())?;
+        let name_and_desc = remapper.map_field(this_class, &field_name, &self.descriptor)?;""")
+    if tname == "RecordComponent":
+        # the component is asked about as the field of its name: the name goes through FieldName (an
+        # error when it is no field name) and comes back through RecordName
+        k = -1
+        for _ in range(2):
+            k = text.find(";", k + 1)
+        if k < 0 or squash(text[:k + 1]) != RECORD_PRELUDE or not with_class:
+            raise Fail("impl for RecordComponent: prelude differs from the recognised map_field(this_class, field name of the component, descriptor)")
+        ctx["decl"] = "DRecord"
+        text = text[k + 1:].strip()
     m = re.match(r"let\s+name_and_desc\s*=\s*remapper\.(map_field|map_method)\(\s*this_class\s*,\s*&self\.name\s*,\s*&self\.descriptor\s*\)\?\s*;", text)
     if m:
         want = {"Field": "map_field", "Method": "map_method"}.get(tname)
